@@ -8,6 +8,7 @@ import (
 	"os"
 	"path/filepath"
 	"strings"
+	"syscall"
 	"time"
 
 	"github.com/virus-evolution/gofasta/pkg/closest"
@@ -21,14 +22,22 @@ import (
 type faultWriter struct {
 	k     int
 	calls int
-	once  bool // only the k-th write fails (a transient fault); the writes after it are accepted again
+	once  bool  // only the k-th write fails (a transient fault); the writes after it are accepted again
+	err   error // what the failing write returns (nil: a plain error value)
 }
+
+// faultErrors: the failures a destination can answer with - a plain error, a full device, a closed pipe (as the os package
+// reports it: a *PathError wrapping EPIPE), an interrupted call, a short write. Whatever it is, it is a failed write.
+var faultErrors = []error{nil, nil, syscall.ENOSPC, &os.PathError{Op: "write", Path: "|1", Err: syscall.EPIPE}, io.ErrClosedPipe, io.ErrShortWrite, syscall.EINTR, syscall.EIO}
 
 var errDeviceFull = errors.New("no space left on device (injected)")
 
 func (f *faultWriter) Write(p []byte) (int, error) {
 	f.calls++
 	if f.k > 0 && (f.calls == f.k || (!f.once && f.calls > f.k)) {
+		if f.err != nil {
+			return 0, f.err
+		}
 		return 0, errDeviceFull
 	}
 	return len(p), nil
@@ -66,11 +75,12 @@ func enumerateFaults(c *Case, run func(w io.Writer) error) {
 			letters = append(letters, 'E') // not run: counted as reported (the enumeration is a sample there)
 			continue
 		}
-		w := &faultWriter{k: k}
+		kind := faultErrors[(int(idSeed(c.ID)%uint64(len(faultErrors)))+k/7)%len(faultErrors)] // one kind for a stretch of fault points
+		w := &faultWriter{k: k, err: kind}
 		l := letter(safeRun(15*time.Second, func() (string, error) { return "", run(w) }))
 		if l == 'E' {
 			// the same fault point again, but only this one write fails: a later successful write must not hide it
-			w1 := &faultWriter{k: k, once: true}
+			w1 := &faultWriter{k: k, once: true, err: kind}
 			if l1 := letter(safeRun(15*time.Second, func() (string, error) { return "", run(w1) })); l1 != 'E' {
 				l = l1
 				transient = append(transient, fmt.Sprint(k))
